@@ -532,7 +532,8 @@ def gen_hetero_cases(draw):
             "s2": [draw(dy(-3, 3, 4)) for _ in range(5)], "o2": [draw(dy(-3, 3, 4)) for _ in range(5)]}
     if flavour == "hetlinear":
         case["init"] = draw(st.sampled_from(["array", "list", "float", "default"]))
-        case["calls"] = draw(st.lists(st.sampled_from([1, 1, 2]), min_size=1, max_size=4))
+        # 1 = label resolution, 2 = twice as fine, 0 = half as fine (only sensible for even label shapes)
+        case["calls"] = draw(st.lists(st.sampled_from([1, 1, 2, 0]), min_size=1, max_size=4))
         case["update"] = draw(st.sampled_from([None, "none", "all", "both", "scaling", "offset", "update"]))
         case["key"] = draw(st.sampled_from(["", "balancing "]))
     elif flavour == "hetmodel-kernel":
@@ -582,7 +583,11 @@ def check_hetero(case):
         def run_calls(tag):
             nonlocal evals
             for k, f in enumerate(case["calls"]):
-                lab_f = labels if f == 1 else upsample2(labels)
+                coarse = f == 0 and labels.shape[0] % 2 == 0 and labels.shape[1] % 2 == 0 and min(labels.shape) >= 2
+                if coarse:
+                    lab_f = labels[::2, ::2]  # only its shape is used, see below
+                else:
+                    lab_f = upsample2(labels) if f == 2 else labels
                 x = gens.payload_array(list(lab_f.shape), "float64", rng_seed + k, dyadic=True)
                 x0 = x.copy()
                 try:
@@ -593,6 +598,14 @@ def check_hetero(case):
                 evals += 1
                 if not np.array_equal(x, x0):
                     raise Violation("hetero-input-modified", "signal changed", t)
+                if coarse:
+                    # which label a coarse voxel gets is the resampler's business; every value must
+                    # still be the homogeneous model of *some* label, and later calls must be exact
+                    cand = np.stack([s[i] * x0 + o[i] for i in range(n)], axis=0)
+                    if got.shape != x0.shape or not np.all(np.any(cand == got[None], axis=0)):
+                        raise Violation("hetero-coarse", f"{tag} call {k + 1} (half resolution): a value is "
+                                        "not the homogeneous model of any label", t)
+                    continue
                 _check_regions(got, x0, lab_f, ids, s, o, t,
                                f"{tag} call {k + 1} of resolutions {case['calls']} (x{f})")
 
@@ -616,7 +629,7 @@ def check_hetero(case):
             run_calls(f"after update ({up})")
         if not np.array_equal(labels, lab_before):
             raise Violation("hetero-labels-modified", "label array changed", t)
-        resized = 2 in case["calls"]
+        resized = 2 in case["calls"] or 0 in case["calls"]
         return Outcome(n >= 2, [case["labels"], s, o, case["calls"], case["update"], init],
                        (f"labels{n}", "hetlinear", f"init-{init}", f"update-{up}",
                         "resized" if resized else "same-resolution",
